@@ -10,7 +10,7 @@ CFG = {
             "ops: Kernel::orient2d (f64 robust, i64 simple incl. beyond the overflow bound), Line x Coord intersects/contains, "
             "coord_pos_relative_to_ring, Triangle x Coord intersects/contains. distinct by input text; a case is trivial (tag triv) when it is an "
             "integer, non-collinear orientation on which naive f64 evaluation agrees. The driver also evaluates the naive f64 formula in exact emulation "
-            "of round-to-nearest and tags the cases where it would have given the wrong answer (naive-differs, see coverage.classes).",
+            "of round-to-nearest and tags the cases where it would have given the wrong answer (naive-differs, see coverage.classes). Also (rounds 7-10): the same predicates on f32, i64 and i32 coordinates (products within the type); C03.poly: polygons with several holes whose boxes overlap and triangles as geometries, two thirds of them flat (collinear or repeated corners), through coordinate_position / contains / intersects and three entry points; points exactly on the line of a mixed-sign segment within two ulps of an end.",
     "trusted_base": [
         "robust::orient2d (Shewchuk's adaptive predicate, external crate) is not re-proved: it is compared with the exact sign on every generated case",
         "integer coordinates: release-build wrapping arithmetic is modelled (wrap64); a debug build would panic instead",
